@@ -358,7 +358,8 @@ func writeEvidence(cfg *Config, spec *PropSpec, ld *Loaded, res *RunResult, s ev
 		"covers":                        s.covers,
 		"solver": map[string]interface{}{
 			"name": cfg.Solver, "version": solverVersion(cfg.Solver), "queries": res.Solver.Queries, "sat": res.Solver.Sat,
-			"unsat": res.Solver.Unsat, "unknown": res.Solver.Unknown, "unknown_retried_on_fallback_solvers": res.Solver.Retries, "rescued_by_fallback": res.Solver.Rescued, "seconds": res.Solver.Dur.Seconds(), "max_query_seconds": res.Solver.MaxQuery.Seconds(),
+			"unsat": res.Solver.Unsat, "unknown": res.Solver.Unknown, "unknown_retried_on_fallback_solvers": res.Solver.Retries, "rescued_by_fallback": res.Solver.Rescued,
+			"queries_cross_checked_on_z3new_and_cvc5": res.Solver.Diffed, "cross_check_disagreements": res.Solver.Disagree, "cross_check_sampling": fmt.Sprintf("every %d-th decided query", diffEvery), "seconds": res.Solver.Dur.Seconds(), "max_query_seconds": res.Solver.MaxQuery.Seconds(),
 		},
 		"ssa_instructions_executed": res.Steps,
 		"known_findings_matched":    s.known,
